@@ -1,7 +1,321 @@
 (* Parser for the subset of Python pattern syntax accepted for author-supplied
-   patterns (replacement definitions, inclusion/exclusion macros). *)
-From Rimu Require Import Base Regex.
+   patterns (replacement definitions, inclusion/exclusion macros).  Mirrors
+   re._parser: same errors ("nothing to repeat", "multiple repeat", unbalanced
+   parentheses, bad escapes, bad ranges...) reported as PError; syntax outside
+   the modelled subset (named groups, inline flags, look-behind, hex/octal
+   escapes, \B, \Z, possessive quantifiers...) is PUnsupported. *)
+From Rimu Require Import Base Regex Unicode.
 
 Inductive parse_result := POk (c : cre) | PError | PUnsupported.
 
-Definition parse_regex (pat : str) (ignorecase multiline : bool) : parse_result := PUnsupported.
+Inductive pres (A : Type) := ROk (a : A) | RErr | RUns.
+Arguments ROk {A} a.
+Arguments RErr {A}.
+Arguments RUns {A}.
+
+Record pstate := { ps_next : nat; ps_closed : list nat }.
+
+Fixpoint rseq' (l : list regex) : regex :=
+  match l with [] => REps | [x] => x | x :: t => RSeq x (rseq' t) end.
+Fixpoint ralt' (l : list regex) : regex :=
+  match l with [] => RSet false [] | [x] => x | x :: t => RAlt x (ralt' t) end.
+
+(* case-insensitive closure *)
+Definition ci_equiv (c : N) : list N :=
+  match find (fun e => fst e =? c) ci_table with Some (_, l) => l | None => [] end.
+
+Definition ci_lit (ic : bool) (c : N) : regex :=
+  if ic then RSet false (IRange c c :: map (fun x => IRange x x) (ci_equiv c))
+  else RSet false [IRange c c].
+
+Definition ci_close (items : list citem) : list citem :=
+  items ++ flat_map (fun e => if existsb (in_item (fst e)) items
+                              then map (fun x => IRange x x) (snd e) else []) ci_table.
+
+Definition is_digit (c : N) : bool := (48 <=? c) && (c <=? 57).
+Definition is_ascii_alnum (c : N) : bool :=
+  is_digit c || ((65 <=? c) && (c <=? 90)) || ((97 <=? c) && (c <=? 122)).
+
+Fixpoint read_digits (s : str) (acc : N) (any : bool) : (N * bool * str) :=
+  match s with
+  | c :: t => if is_digit c then read_digits t (acc * 10 + (c - 48)) true else (acc, any, s)
+  | [] => (acc, any, s)
+  end.
+
+(* after '{': Some (min, max, rest) when a well-formed repeat spec follows *)
+Definition parse_braces (s : str) : option (N * option N * str) :=
+  match s with
+  | 125 :: _ => None                (* "{}" is a literal *)
+  | _ =>
+      let '(lo, anylo, s1) := read_digits s 0 false in
+      match s1 with
+      | 44 :: s2 =>
+          let '(hi, anyhi, s3) := read_digits s2 0 false in
+          match s3 with
+          | 125 :: s4 => Some (if anylo then lo else 0, if anyhi then Some hi else None, s4)
+          | _ => None
+          end
+      | 125 :: s2 => if anylo then Some (lo, Some lo, s2) else None
+      | _ => None
+      end
+  end.
+
+Inductive qres := QNone | QRep (mn : N) (mx : option N) (greedy : bool) (rest : str) | QErr | QUns.
+
+Definition parse_quant (s : str) : qres :=
+  let finish mn mx rest :=
+    match rest with
+    | 63 :: r => QRep mn mx false r
+    | 43 :: _ => QUns                   (* possessive *)
+    | _ => QRep mn mx true rest
+    end in
+  match s with
+  | 42 :: r => finish 0 None r
+  | 43 :: r => finish 1 None r
+  | 63 :: r => finish 0 (Some 1) r
+  | 123 :: r =>
+      match parse_braces r with
+      | Some (mn, mx, r') =>
+          match mx with
+          | Some x => if x <? mn then QErr else finish mn mx r'
+          | None => finish mn mx r'
+          end
+      | None => QNone
+      end
+  | _ => QNone
+  end.
+
+Definition cat_escape (c : N) : option citem :=
+  if c =? 100 then Some (ICat CatDigit false) else if c =? 68 then Some (ICat CatDigit true)
+  else if c =? 115 then Some (ICat CatSpace false) else if c =? 83 then Some (ICat CatSpace true)
+  else if c =? 119 then Some (ICat CatWord false) else if c =? 87 then Some (ICat CatWord true)
+  else None.
+
+Definition simple_escape (c : N) : option N :=
+  if c =? 110 then Some 10 else if c =? 116 then Some 9 else if c =? 114 then Some 13
+  else if c =? 102 then Some 12 else if c =? 118 then Some 11 else if c =? 97 then Some 7
+  else if c =? 92 then Some 92 else None.
+
+(* one class member: category, or a code point *)
+Inductive cmember := CMcat (i : citem) | CMchr (c : N).
+
+Definition class_member (s : str) : pres (cmember * str) :=
+  match s with
+  | [] => RErr
+  | 92 :: c :: t =>
+      match cat_escape c with
+      | Some i => ROk (CMcat i, t)
+      | None =>
+          if c =? 98 then ROk (CMchr 8, t) else
+          match simple_escape c with
+          | Some x => ROk (CMchr x, t)
+          | None => if is_digit c || (c =? 120) || (c =? 117) || (c =? 85) || (c =? 78) then RUns
+                    else if is_ascii_alnum c then RErr else ROk (CMchr c, t)
+          end
+      end
+  | 92 :: [] => RErr
+  | c :: t => ROk (CMchr c, t)
+  end.
+
+Fixpoint parse_class (fuel : nat) (s : str) (first : bool) (acc : list citem) : pres (list citem * str) :=
+  match fuel with
+  | O => RErr
+  | S f =>
+      match s with
+      | [] => RErr
+      | 93 :: t => if first then
+                     (* a leading ']' is a literal *)
+                     match t with
+                     | 45 :: 93 :: t' => ROk (acc ++ [IRange 93 93; IRange 45 45], t')
+                     | 45 :: _ => RUns
+                     | _ => parse_class f t false (acc ++ [IRange 93 93])
+                     end
+                   else ROk (acc, t)
+      | _ =>
+          match class_member s with
+          | RErr => RErr
+          | RUns => RUns
+          | ROk (m1, s1) =>
+              match s1 with
+              | 45 :: 93 :: t' =>
+                  ROk (acc ++ [match m1 with CMcat i => i | CMchr c => IRange c c end; IRange 45 45], t')
+              | 45 :: s2 =>
+                  match s2 with
+                  | [] => RErr
+                  | _ =>
+                      match class_member s2 with
+                      | RErr => RErr
+                      | RUns => RUns
+                      | ROk (m2, s3) =>
+                          match m1, m2 with
+                          | CMchr lo, CMchr hi =>
+                              if hi <? lo then RErr else parse_class f s3 false (acc ++ [IRange lo hi])
+                          | _, _ => RErr
+                          end
+                      end
+                  end
+              | _ => parse_class f s1 false (acc ++ [match m1 with CMcat i => i | CMchr c => IRange c c end])
+              end
+          end
+      end
+  end.
+
+Section Parser.
+Variable ic ml : bool.
+
+Definition is_at (r : regex) : bool :=
+  match r with RBol _ | REol _ | RWordB _ => true | _ => false end.
+Definition is_rep (r : regex) : bool :=
+  match r with RRep _ _ _ _ => true | _ => false end.
+
+(* atom: regex, whether it came from a non-capturing group (then a repeat inside is fine) *)
+Fixpoint parse_alt (fuel : nat) (s : str) (st : pstate) {struct fuel} : pres (regex * str * pstate) :=
+  match fuel with
+  | O => RErr
+  | S f =>
+      let fix branches (k : nat) (s : str) (st : pstate) (acc : list regex) {struct k}
+        : pres (regex * str * pstate) :=
+        match k with
+        | O => RErr
+        | S k' =>
+            match parse_seq f s st [] with
+            | RErr => RErr
+            | RUns => RUns
+            | ROk (r, s', st') =>
+                match s' with
+                | 124 :: s'' => branches k' s'' st' (acc ++ [r])
+                | _ => ROk (ralt' (acc ++ [r]), s', st')
+                end
+            end
+        end in
+      branches (S (length s)) s st []
+  end
+with parse_seq (fuel : nat) (s : str) (st : pstate) (acc : list regex) {struct fuel}
+  : pres (regex * str * pstate) :=
+  match fuel with
+  | O => RErr
+  | S f =>
+      match s with
+      | [] => ROk (rseq' acc, s, st)
+      | 124 :: _ => ROk (rseq' acc, s, st)
+      | 41 :: _ => ROk (rseq' acc, s, st)
+      | _ =>
+          match parse_atom f s st with
+          | RErr => RErr
+          | RUns => RUns
+          | ROk (a, unwrapped, s1, st1) =>
+              match parse_quant s1 with
+              | QErr => RErr
+              | QUns => RUns
+              | QNone => parse_seq f s1 st1 (acc ++ [a])
+              | QRep mn mx g s2 =>
+                  if is_at a then RErr
+                  else if is_rep a && negb unwrapped then RErr
+                  else parse_seq f s2 st1 (acc ++ [RRep g mn mx a])
+              end
+          end
+      end
+  end
+with parse_atom (fuel : nat) (s : str) (st : pstate) {struct fuel}
+  : pres (regex * bool * str * pstate) :=
+  match fuel with
+  | O => RErr
+  | S f =>
+      match s with
+      | [] => RErr
+      | c :: t =>
+          if c =? 46 then ROk (RAny false, false, t, st)
+          else if c =? 94 then ROk (RBol ml, false, t, st)
+          else if c =? 36 then ROk (REol ml, false, t, st)
+          else if (c =? 42) || (c =? 43) || (c =? 63) then RErr     (* nothing to repeat *)
+          else if c =? 123 then
+            match parse_braces t with
+            | Some _ => RErr                                         (* nothing to repeat *)
+            | None => ROk (ci_lit ic 123, false, t, st)
+            end
+          else if c =? 91 then
+            let '(neg, t') := match t with 94 :: t' => (true, t') | _ => (false, t) end in
+            match parse_class (S (length t')) t' true [] with
+            | RErr => RErr
+            | RUns => RUns
+            | ROk (items, rest) => ROk (RSet neg (if ic then ci_close items else items), false, rest, st)
+            end
+          else if c =? 92 then
+            match t with
+            | [] => RErr
+            | e :: t' =>
+                match cat_escape e with
+                | Some i => ROk (RSet false [i], false, t', st)
+                | None =>
+                    if e =? 98 then ROk (RWordB false, false, t', st)
+                    else if e =? 66 then ROk (RWordB true, false, t', st)
+                    else if e =? 65 then ROk (RBol false, false, t', st)
+                    else if e =? 90 then RUns
+                    else if is_digit e then
+                      if e =? 48 then RUns else
+                      match t' with
+                      | d :: _ => if is_digit d then RUns else
+                                  let g := N.to_nat (e - 48) in
+                                  if ic then RUns
+                                  else if existsb (Nat.eqb g) (ps_closed st) then ROk (RBref g, false, t', st)
+                                  else RErr
+                      | [] => let g := N.to_nat (e - 48) in
+                              if ic then RUns
+                              else if existsb (Nat.eqb g) (ps_closed st) then ROk (RBref g, false, t', st)
+                              else RErr
+                      end
+                    else match simple_escape e with
+                         | Some x => ROk (ci_lit ic x, false, t', st)
+                         | None =>
+                             if (e =? 120) || (e =? 117) || (e =? 85) || (e =? 78) then RUns
+                             else if is_ascii_alnum e then RErr
+                             else ROk (ci_lit ic e, false, t', st)
+                         end
+                end
+            end
+          else if c =? 40 then
+            match t with
+            | 63 :: 58 :: t' =>
+                match parse_alt f t' st with
+                | ROk (r, 41 :: rest, st') => ROk (r, true, rest, st')
+                | ROk _ => RErr
+                | RErr => RErr
+                | RUns => RUns
+                end
+            | 63 :: 61 :: t' =>
+                match parse_alt f t' st with
+                | ROk (r, 41 :: rest, st') => ROk (RLook false r, false, rest, st')
+                | ROk _ => RErr
+                | RErr => RErr
+                | RUns => RUns
+                end
+            | 63 :: 33 :: t' =>
+                match parse_alt f t' st with
+                | ROk (r, 41 :: rest, st') => ROk (RLook true r, false, rest, st')
+                | ROk _ => RErr
+                | RErr => RErr
+                | RUns => RUns
+                end
+            | 63 :: _ => RUns
+            | _ =>
+                let g := ps_next st in
+                match parse_alt f t {| ps_next := S g; ps_closed := ps_closed st |} with
+                | ROk (r, 41 :: rest, st') =>
+                    ROk (RGrp g r, false, rest, {| ps_next := ps_next st'; ps_closed := g :: ps_closed st' |})
+                | ROk _ => RErr
+                | RErr => RErr
+                | RUns => RUns
+                end
+            end
+          else ROk (ci_lit ic c, false, t, st)
+      end
+  end.
+End Parser.
+
+Definition parse_regex (pat : str) (ignorecase multiline : bool) : parse_result :=
+  match parse_alt ignorecase multiline (3 * length pat + 3) pat {| ps_next := 1; ps_closed := [] |} with
+  | ROk (r, [], st) => POk {| re_ast := r; re_groups := ps_next st - 1 |}
+  | ROk _ => PError          (* unbalanced parenthesis *)
+  | RErr => PError
+  | RUns => PUnsupported
+  end.
